@@ -1,6 +1,8 @@
 import Proofs.Lemmas.FastSimOps
 import Proofs.Lemmas.FastSelect
 import Proofs.Props.C01
+import Proofs.Lemmas.CLimb
+import Proofs.Lemmas.Signed
 /-!
 # C02 — FastSimulation and CompiledSimulation are observably identical to Simulation
 
@@ -156,5 +158,142 @@ example : FastSim.exec (.select [5, 4, 3, 2, 1, 0]) (castArgs [(8, 0xC0)]) 6 = 0
 -- the precedence witness: a mux net with a 2-bit destination and 4-bit data inputs
 example : FastSim.exec .mux (castArgs [(1, 1), (4, 9), (4, 15)]) 2 = 3 := by decide
 example : SaneWidths .mux [(1, 1), (4, 9), (4, 15)] := rfl
+
+
+/-! ## CompiledSimulation: the C statements of a net on 64-bit limbs
+
+`CLimb.emit*` are the statements `CompiledSimulation._build_*` writes for one net (the generated text is
+parsed and compared with these programs, statement by statement, on every run: tools/checks/c02.py
+`climb_tie`); `CLimb.execList` is the semantics of that C fragment; `CLimb.Enc σ k V` says that argument
+`k` is stored as the limbs of `V`; `CLimb.destVal σ L` is the number held by the `L` destination limbs. -/
+
+/-- **`+` in the C backend**: for operands of any widths — any number of limbs, carries detected by the
+    two comparisons, top limb masked only when the destination is narrower than the natural width — the
+    destination holds exactly what the documented semantics give. -/
+theorem compiled_add_eq_spec (σ0 : CLimb.Env) (wa wb wd A B : Nat) (hA : A < 2 ^ wa) (hB : B < 2 ^ wb)
+    (h0 : CLimb.Enc σ0 0 A) (h1 : CLimb.Enc σ0 1 B) (hwd1 : 0 < wd) (hwd : wd ≤ max wa wb + 1) :
+    CLimb.destVal (CLimb.execList σ0 (CLimb.emitAdd wa wb wd)) (CLimb.limbs wd)
+      = Spec.comb .add [(wa, A), (wb, B)] wd := by
+  rw [CLimb.emitAdd_correct σ0 wa wb wd A B hA hB h0 h1 hwd1 hwd]
+  rfl
+
+/-- **`w`** (also the truncating raw form) -/
+theorem compiled_wire_eq_spec (σ0 : CLimb.Env) (wa wd A : Nat) (hA : A < 2 ^ wa) (h0 : CLimb.Enc σ0 0 A) (hwd : 0 < wd) :
+    CLimb.destVal (CLimb.execList σ0 (CLimb.emitWire wa wd)) (CLimb.limbs wd) = Spec.comb .w [(wa, A)] wd :=
+  CLimb.emitWire_correct σ0 wa wd A hA h0 hwd
+
+/-- **`&`, `|`, `^`** on operands of any (also different) numbers of limbs -/
+theorem compiled_and_eq_spec (σ0 : CLimb.Env) (wa wb wd A B : Nat) (hA : A < 2 ^ wa) (hB : B < 2 ^ wb)
+    (h0 : CLimb.Enc σ0 0 A) (h1 : CLimb.Enc σ0 1 B) (hwd : 0 < wd) :
+    CLimb.destVal (CLimb.execList σ0 (CLimb.emitBitwise .and wa wb wd)) (CLimb.limbs wd)
+      = Spec.comb .and [(wa, A), (wb, B)] wd :=
+  CLimb.emitBitwise_correct .and σ0 wa wb wd A B hA hB h0 h1 hwd
+
+theorem compiled_or_eq_spec (σ0 : CLimb.Env) (wa wb wd A B : Nat) (hA : A < 2 ^ wa) (hB : B < 2 ^ wb)
+    (h0 : CLimb.Enc σ0 0 A) (h1 : CLimb.Enc σ0 1 B) (hwd : 0 < wd) :
+    CLimb.destVal (CLimb.execList σ0 (CLimb.emitBitwise .or wa wb wd)) (CLimb.limbs wd)
+      = Spec.comb .or [(wa, A), (wb, B)] wd :=
+  CLimb.emitBitwise_correct .or σ0 wa wb wd A B hA hB h0 h1 hwd
+
+theorem compiled_xor_eq_spec (σ0 : CLimb.Env) (wa wb wd A B : Nat) (hA : A < 2 ^ wa) (hB : B < 2 ^ wb)
+    (h0 : CLimb.Enc σ0 0 A) (h1 : CLimb.Enc σ0 1 B) (hwd : 0 < wd) :
+    CLimb.destVal (CLimb.execList σ0 (CLimb.emitBitwise .xor wa wb wd)) (CLimb.limbs wd)
+      = Spec.comb .xor [(wa, A), (wb, B)] wd :=
+  CLimb.emitBitwise_correct .xor σ0 wa wb wd A B hA hB h0 h1 hwd
+
+/-- **`=`**: the `&&` chain over the limbs is the equality of the values -/
+theorem compiled_eq_eq_spec (σ0 : CLimb.Env) (wa wb A B : Nat) (hA : A < 2 ^ wa) (hB : B < 2 ^ wb)
+    (h0 : CLimb.Enc σ0 0 A) (h1 : CLimb.Enc σ0 1 B) (hwa : 0 < wa) :
+    (CLimb.execList σ0 (CLimb.emitEq wa wb)).get (.dest 0) = Spec.comb .eq [(wa, A), (wb, B)] 1 := by
+  rw [CLimb.emitEq_correct σ0 wa wb A B hA hB h0 h1 hwa]
+  by_cases h : A = B <;> simp [Spec.comb, CLimb.b2n, h]
+
+/-- **`<`, `>`**: the chain `c_n || (eq_n && inner)` built from the least significant limb outwards is the
+    comparison of the values -/
+theorem compiled_lt_eq_spec (σ0 : CLimb.Env) (wa wb A B : Nat) (hA : A < 2 ^ wa) (hB : B < 2 ^ wb)
+    (h0 : CLimb.Enc σ0 0 A) (h1 : CLimb.Enc σ0 1 B) (hwa : 0 < wa) :
+    (CLimb.execList σ0 (CLimb.emitCmp true wa wb)).get (.dest 0) = Spec.comb .lt [(wa, A), (wb, B)] 1 := by
+  rw [CLimb.emitCmp_correct true σ0 wa wb A B hA hB h0 h1 hwa]
+  by_cases h : A < B <;> simp [Spec.comb, CLimb.b2n, h]
+
+theorem compiled_gt_eq_spec (σ0 : CLimb.Env) (wa wb A B : Nat) (hA : A < 2 ^ wa) (hB : B < 2 ^ wb)
+    (h0 : CLimb.Enc σ0 0 A) (h1 : CLimb.Enc σ0 1 B) (hwa : 0 < wa) :
+    (CLimb.execList σ0 (CLimb.emitCmp false wa wb)).get (.dest 0) = Spec.comb .gt [(wa, A), (wb, B)] 1 := by
+  rw [CLimb.emitCmp_correct false σ0 wa wb A B hA hB h0 h1 hwa]
+  by_cases h : B < A <;> simp [Spec.comb, CLimb.b2n, h]
+
+/-- **`x`** (multiplexer) -/
+theorem compiled_mux_eq_spec (σ0 : CLimb.Env) (wf wt wd Sv F T : Nat) (hS : Sv < 2 ^ 1) (hF : F < 2 ^ wf)
+    (hT : T < 2 ^ wt) (hs : CLimb.Enc σ0 0 Sv) (h1 : CLimb.Enc σ0 1 F) (h2 : CLimb.Enc σ0 2 T) (hwd : 0 < wd) :
+    CLimb.destVal (CLimb.execList σ0 (CLimb.emitMux wf wt wd)) (CLimb.limbs wd)
+      = Spec.comb .mux [(1, Sv), (wf, F), (wt, T)] wd :=
+  CLimb.emitMux_correct σ0 wf wt wd Sv F T hS hF hT hs h1 h2 hwd
+
+/-- **`-`**: borrows detected by the two comparisons; the destination holds the difference modulo `2^wd` -/
+theorem compiled_sub_eq_spec (σ0 : CLimb.Env) (wa wb wd A B : Nat) (hA : A < 2 ^ wa) (hB : B < 2 ^ wb)
+    (h0 : CLimb.Enc σ0 0 A) (h1 : CLimb.Enc σ0 1 B) (hwd1 : 0 < wd) :
+    CLimb.destVal (CLimb.execList σ0 (CLimb.emitSub wa wb wd)) (CLimb.limbs wd)
+      = Spec.comb .sub [(wa, A), (wb, B)] wd := by
+  obtain ⟨hlt, hcong⟩ := CLimb.emitSub_correct σ0 wa wb wd A B hA hB h0 h1 hwd1
+  generalize CLimb.destVal (CLimb.execList σ0 (CLimb.emitSub wa wb wd)) (CLimb.limbs wd) = D at *
+  simp only [Spec.comb]
+  have h1' := Nat.div_add_mod (D + B) (2 ^ wd)
+  have h2' := Nat.div_add_mod A (2 ^ wd)
+  rw [hcong] at h1'
+  have key : ((A : Int) - (B : Int)) % ((2 ^ wd : Nat) : Int) = (D : Int) := by
+    apply Ops.emod_rep _ _ _ (((A / 2 ^ wd : Nat) : Int) - (((D + B) / 2 ^ wd : Nat) : Int))
+    · have e1 : ((2 ^ wd * ((D + B) / 2 ^ wd) + A % 2 ^ wd : Nat) : Int) = ((D + B : Nat) : Int) := by rw [h1']
+      have e2 : ((2 ^ wd * (A / 2 ^ wd) + A % 2 ^ wd : Nat) : Int) = (A : Int) := by rw [h2']
+      push_cast at e1 e2 ⊢
+      linarith
+    · exact Int.natCast_nonneg D
+    · exact_mod_cast hlt
+  rw [key]; simp
+
+/-- **`~`**: every limb complemented, the partial top limb always masked -/
+theorem compiled_not_eq_spec (σ0 : CLimb.Env) (wa wd A : Nat) (hA : A < 2 ^ wa) (h0 : CLimb.Enc σ0 0 A) (hwd : 0 < wd) :
+    CLimb.destVal (CLimb.execList σ0 (CLimb.emitNot wd)) (CLimb.limbs wd) = Spec.comb .inv [(wa, A)] wd :=
+  CLimb.emitNot_correct σ0 wa wd A hA h0 hwd
+
+/-- **`nand`** -/
+theorem compiled_nand_eq_spec (σ0 : CLimb.Env) (wa wb wd A B : Nat) (hA : A < 2 ^ wa) (hB : B < 2 ^ wb)
+    (h0 : CLimb.Enc σ0 0 A) (h1 : CLimb.Enc σ0 1 B) (hwd : 0 < wd) :
+    CLimb.destVal (CLimb.execList σ0 (CLimb.emitNand wa wb wd)) (CLimb.limbs wd)
+      = Spec.comb .nand [(wa, A), (wb, B)] wd :=
+  CLimb.emitNand_correct σ0 wa wb wd A B hA hB h0 h1 hwd
+
+/-- **`*`** at the natural destination width `len(a) + len(b)` (what every API-built multiplication has):
+    schoolbook multiplication over 64-bit limbs — 128-bit partial products through `mul128`, the two carry
+    detections per cell, the row carry stored in (or, when the product cannot reach it, dropped from) the next
+    limb — leaves exactly `A * B` in the destination, for operands of any number of limbs.
+    PARTIAL: raw nets whose destination is narrower than `len(a)+len(b)` (masked/truncated rows) are covered
+    by the text tie and the value comparison only. -/
+theorem compiled_mul_eq_spec_partial (σ0 : CLimb.Env) (wa wb A B : Nat) (hwa : 0 < wa) (hwb : 0 < wb)
+    (hA : A < 2 ^ wa) (hB : B < 2 ^ wb) (h0 : CLimb.Enc σ0 0 A) (h1 : CLimb.Enc σ0 1 B) :
+    CLimb.destVal (CLimb.execList σ0 (CLimb.emitMul wa wb (wa + wb))) (CLimb.limbs (wa + wb))
+      = Spec.comb .mul [(wa, A), (wb, B)] (wa + wb) := by
+  rw [CLimb.emitMul_correct σ0 wa wb A B hwa hwb hA hB h0 h1]
+  simp only [Spec.comb]
+  exact (Nat.mod_eq_of_lt (by rw [Nat.pow_add]; exact Nat.mul_lt_mul'' hA hB)).symm
+
+/-- **`s`** (select): every index tuple, source and destination of any number of limbs; a destination narrower
+    than the tuple keeps the low bits -/
+theorem compiled_select_eq_spec (σ0 : CLimb.Env) (idx : List Nat) (wa wd A : Nat) (h0 : CLimb.Enc σ0 0 A)
+    (hwd : wd ≤ idx.length) :
+    CLimb.destVal (CLimb.execList σ0 (CLimb.emitSelect idx wd)) (CLimb.limbs wd)
+      = Spec.comb (.select idx) [(wa, A)] wd := by
+  rw [CLimb.emitSelect_correct σ0 idx wd A h0 hwd]
+  simp only [Spec.comb]
+  have h := CLimb.selectVal_append (idx.take wd) (idx.drop wd) A
+  rw [List.take_append_drop] at h
+  have hlen : (idx.take wd).length = wd := by simp [hwd]
+  rw [h, hlen, Nat.add_mul_mod_self_left]
+  have hlt := CLimb.selectVal_lt (idx.take wd) A
+  rw [hlen] at hlt
+  exact (Nat.mod_eq_of_lt hlt).symm
+
+-- the hypotheses are satisfiable; a two-limb addition with a carry across the limb boundary
+example : CLimb.destVal (CLimb.execList ⟨[(.arg 0 0, 2 ^ 64 - 1), (.arg 0 1, 1), (.arg 1 0, 1), (.arg 1 1, 0)]⟩
+    (CLimb.emitAdd 65 65 66)) (CLimb.limbs 66) = (2 ^ 64 - 1 + 2 ^ 64) + 1 := by decide +kernel
 
 end Pyrtl.C02
